@@ -12,7 +12,7 @@ import os
 
 import numpy as np
 
-from .. import em, games, gm
+from .. import em, games, gm, simthreads
 from .. import prelude
 from ..core import Sim
 
@@ -20,17 +20,19 @@ LEVEL = "exploration"
 RULE = ("Each run draws one hidden superadditive game (harness closure of integer / dyadic / float base values, "
         "negative and non-zero-normalised included, or a registered superadditive family), one of the two SA "
         "computers, n = 3..6 (thorough ..7) and a history of <= 40 truthful operations (reveal, un-reveal, bulk "
-        "reset, bulk set, compute) with faults (torn compute, scribbled bounds, memo eviction); the containment "
+        "reset, bulk set, compute) with faults (torn compute, scribbled bounds, memo eviction, reveals that fail "
+        "because the value is not a number, computes overlapped with another caller thread's compute); the containment "
         "invariant is evaluated after every completed compute. Non-trivial = evaluated after a mutation; distinct = "
         "distinct event-log digests.")
 STATE_MEASURE = "distinct (n, computer, knowledge bitmask) at which containment was evaluated"
 REAL_VS_STUB = {"real": ["incomplete_cooperative.bounds (both SA computers)", "game", "coalitions", "coalition_ids",
                          "generators (registry families as hidden-game source)"], "stub": [],
-                "seams": ["sys.settrace interrupt injector", "functools cache eviction"]}
+                "seams": ["sys.settrace interrupt injector", "functools cache eviction",
+                          "line-granular thread interleaver (sim/simthreads.py)"]}
 ASSUMPTIONS = ["the for-all-games / for-all-K part is only sampled along the histories drawn",
                "exact mode (integer / dyadic values): exact comparisons; float mode: tolerance 1e-9*max(1,max|v|)",
                "premise (hidden game superadditive, K contains the minimal information) is re-checked independently"]
-PROBES = ["dense_knowledge_large_n", "large_n", "torn_then_recomputed", "scribble_then_compute", "negative_values", "registry_game", "exact_mode",
+PROBES = ["reveal_failed_then_history_continued", "compute_overlapped_with_another_threads_compute", "dense_knowledge_large_n", "large_n", "torn_then_recomputed", "scribble_then_compute", "negative_values", "registry_game", "exact_mode",
           "float_mode", "unreveal_then_compute"]
 TIERS = {
     "quick": {"runs": 120000, "wall": 40, "batch": 48, "shrink_s": 40},
@@ -162,6 +164,30 @@ def run(sim: Sim) -> None:
     for _ in range(steps):
         if sim.flip(1, 16, "other-use"):
             prelude.warm_process(sim, label="midrun")
+        if sim.flip(1, 14, "failed-reveal") and h.unknown():
+            # a reveal that fails: the value handed in is not a number (the caller passed a list / a label); the call
+            # may raise, and the history simply goes on - the coalition was never revealed
+            i = sim.pick(h.unknown(), "failed-reveal-coalition")
+            bad_value = sim.pick(["n/a", [1.0, 2.0], {"v": 1}], "bad-value")
+            sim.op("reveal-with-unusable-value", i)
+            try:
+                h.g.reveal_value(bad_value, games.coalition(i))
+                return  # some numpy conversion accepted it: not a modelled operation
+            except Exception:
+                h.dirty = True
+                sim.fault("operation_failed_half_way")
+                sim.probe("reveal_failed_then_history_continued")
+        if not h.dirty and h.n <= 5 and sim.flip(1, 12, "threads"):
+            # another caller thread computes the bounds of an unrelated game object while this one is recomputed
+            with sim.guard("C01.operation_raised"):
+                v2, _ = games.draw_game(sim, h.n if sim.flip(1, 2, "same-n") else 3 + sim.choose(3, "other-n"), "SA")
+                n2 = int(np.log2(len(v2)))
+                g2 = games.new_game(n2, games.computer(comp_name))
+                ids2 = games.minimal_ids(n2) + sim.subset(games.explorable_ids(n2), "other-known", 0, 4)
+                g2.set_known_values([float(v2[j]) for j in ids2], games.coalitions(ids2))
+                simthreads.interleave(sim, [h.g.compute_bounds, g2.compute_bounds])
+            sim.probe("compute_overlapped_with_another_threads_compute")
+            check_containment(sim, h, exact)
         with sim.guard("C01.operation_raised"):
             op = gm.draw_op(sim, h, truthful=True, allow_break_minimal=False)
             fault = None
